@@ -24,7 +24,7 @@
    The partial theorem excludes exactly, by name: []int []uint [n]int [n]uint, []bool [n]bool,
    slices of a named numeric element type, float32 arrays holding a signalling NaN; a nil slice /
    map whose element / key builder does not answer Null; pointers to a value written as Null, to a
-   slice, to a map, to a pointer to a container, to Media; types.Edge; everything held by an
+   slice, to a map, to a pointer to a container; types.Edge; everything held by an
    interface (types.Node included; covered by the correspondence only); big.Float; struct types
    with embedded fields or order= tags; and it requires that an omitted
    field holds a value [veq] to its zero value, that the emitted name of a kept field is answered
@@ -123,9 +123,20 @@ Theorem C04_pointer_to_map_refuted :
   fails (TPtr (TMap TString (TInt W64))) (VPtr 1 (VMap 2 [(VString [97], VInt 1)])).               (* &map[string]int{"a": 1} *)
 Proof. exact ptr_map_fails. Qed.
 Print Assumptions C04_pointer_to_map_refuted.
-Theorem C04_pointer_to_media_refuted : fails (TPtr TMedia) (VPtr 1 (VMedia false [97; 47; 98] [1; 2])).
-Proof. exact ptr_media_fails. Qed.
-Print Assumptions C04_pointer_to_media_refuted.
+(* Repaired by /repo commit bfbf710 (was C04_pointer_to_media_refuted : fails (TPtr TMedia) ...):
+   the pointer to Media now comes back, whatever the library tables, and lies in the fragment. *)
+Theorem C04_pointer_to_media_roundtrip :
+  forall lt,
+    has_type (TPtr TMedia) (VPtr 1 (VMedia false [97; 47; 98] [1; 2])) = true /\
+    exists v', unmarshal_events lt default_bcfg (TPtr TMedia)
+                 (cbe_events (iterate icfg0 (Some (VPtr 1 (VMedia false [97; 47; 98] [1; 2]))))) = TOk v'
+               /\ veq (VPtr 1 (VMedia false [97; 47; 98] [1; 2])) v' = true.
+Proof. exact ptr_media_roundtrip. Qed.
+Print Assumptions C04_pointer_to_media_roundtrip.
+Example C04_pointer_to_media_supported :
+  has_type (TPtr TMedia) (VPtr 1 (VMedia false [97; 47; 98] [1; 2])) = true /\
+  sup idlib idlib default_bcfg icfg0 (TPtr TMedia) (VPtr 1 (VMedia false [97; 47; 98] [1; 2])) = true.
+Proof. exact ptr_media_supported. Qed.
 Theorem C04_pointer_to_pointer_to_struct_refuted :
   fails (TPtr (TPtr (TStruct 1 []))) (VPtr 1 (VPtr 2 (VStruct 1 []))).                             (* **struct{} *)
 Proof. exact ptr_ptr_struct_fails. Qed.
